@@ -43,6 +43,8 @@ def render_method(m, fname):
         return head + f"    return ('T', {k}) + tuple({rec}(a) for a in x)\n"
     if m["kind"] == "walk_dict":
         return head + f"    return dict({{kk: {rec}(v) for kk, v in x.items()}}, __m__={k})\n"
+    if m["kind"] == "next":
+        return head + f"    return ('next', {k}, call_next(x))\n"
     raise ValueError(m["kind"])
 
 
@@ -63,7 +65,8 @@ class FnGraph:
     def _define(self, node_id, m, self_name):
         src = render_method(m, self_name)
         fname = install_source(src, tag="verifg")
-        glb = {"__name__": f"verifgraph_n{node_id}", "recurse": self.ovldmod.recurse, "_LOG": self.log,
+        glb = {"__name__": f"verifgraph_n{node_id}", "recurse": self.ovldmod.recurse,
+               "call_next": self.ovldmod.call_next, "_LOG": self.log,
                f"GA{m['id']}": S.build_ann(method_ann(m), self.env)}
         exec(compile(src, fname, "exec"), glb, glb)
         self.files.append(fname)
@@ -144,9 +147,24 @@ def eval_ref(eff, node, x, env):
     if r[0] != "method":
         raise RefFail(r[0])
     m = next(mm_ for mm_ in methods if mm_["id"] == r[1])
+    return _apply_ref(eff, node, methods, mm, seq, m, x, env)
+
+
+def _apply_ref(eff, node, methods, mm, seq, m, x, env):
     k = m["id"]
     if m["kind"] == "leaf":
         return ("leaf", k)
+    if m["kind"] == "next":
+        # call_next: the method after this one in the successive resolutions of x (in the called node's method set)
+        ch = M.chain(mm, [x], {}, env, seq)
+        for i, r in enumerate(ch):
+            if r == ("method", k):
+                nx = ch[i + 1]
+                if nx[0] != "method":
+                    raise RefFail(nx[0])
+                m2 = next(z for z in methods if z["id"] == nx[1])
+                return ("next", k, _apply_ref(eff, node, methods, mm, seq, m2, x, env))
+        raise RefFail("unspec")
     nxt = node if m.get("rec", "recurse") == "recurse" else m["owner"]
     if m["kind"] == "walk_list":
         return ["L", k] + [eval_ref(eff, nxt, a, env) for a in x]
